@@ -375,9 +375,11 @@ func EvalOne(ctx context.Context, s *eval.State, what string, out io.Writer, opt
 	formatted string,
 ) {
 	if !options.PanicOk {
+		origOut := s.Out // function calls swap s.Out to capture output; a panic inside one would leave the capture buffer.
 		defer func() {
 			if r := recover(); r != nil {
 				panicked = true
+				s.Out = origOut
 				log.Critf("Caught panic: %v", r)
 				if log.LogDebug() {
 					log.Debugf("Dumping stack trace")
